@@ -43,7 +43,7 @@ fn run(ctx: &Ctx, out: &mut Out) {
         let jets = JetCodes::new(fam);
         let nmax = ctx.tier.pick(5, 6);
         for n in 1..=nmax {
-            let alpha = if n == 6 { if fam == Fam::Elements { continue } else { sigma_core(fam) } } else { sigma_p(fam) };
+            let alpha = sigma_p(fam);
             let mut dags: Vec<Dag> = vec![];
             enum_dags(n, &alpha, 3, &mut || ctx.mine(), &mut |d| dags.push(d.to_vec()));
             for dag in &dags {
